@@ -72,6 +72,8 @@ var vShapes = []string{
 	"#aF", "a#F", "aF#", "w#pk", "wp#", "D#", "#D", "aS#k",
 	// -p without -w, alone or mixed with the other families
 	"aSp", "paS", "aFp", "Dp", "pD", "p", "pk", "Sp", "Cp",
+	// a flag given twice
+	"wpp", "pwp", "wppk",
 }
 
 var vAddArgs = []string{"always,exit", "exit,never", " task , always ", "user,always", "exclude,never"}
@@ -245,6 +247,7 @@ func VH_Tokens() {
 		vAssert(nD > 0, "C14/wrong-rule-kind")
 		sameList(rr.Keys, keys, "C14/key-not-reflected")
 	case *rule.FileWatchRule:
+		pDone := false
 		vAssert(nW+nP > 0 && nD == 0, "C14/wrong-rule-kind")
 		sameList(rr.Keys, keys, "C14/key-not-reflected")
 		for _, t := range toks {
@@ -252,6 +255,18 @@ func VH_Tokens() {
 			case 'w':
 				vAssert(rr.Path == t.arg, "C14/watch-path-not-reflected") // (single -w per line in these shapes)
 			case 'p':
+				if pDone {
+					break
+				}
+				pDone = true
+				// every -p argument of the line, in order (a repeated -p adds to the list)
+				var allP string
+				for _, tt := range toks {
+					if tt.kind == 'p' {
+						allP += tt.arg
+					}
+				}
+				t.arg = allP
 				vAssert(len(rr.Permissions) == len(t.arg), "C14/permissions-not-reflected")
 				for i := 0; i < len(t.arg) && i < len(rr.Permissions); i++ {
 					var want rule.AccessType
